@@ -176,6 +176,8 @@ structure Tables where
   vars : Array (List (Var Bool))   -- entry k-1: working variables after k steps
   /-- entry j: what callback invocation number j assigns to (`itnum`, `maxiter`), if anything -/
   ctl : Array (Option Int × Option Int) := #[]
+  /-- entry j: callback invocation number j raises an exception -/
+  raises : Array Bool := #[]
 
 def envOf (tb : Tables) : Env W Nat Nat Bool :=
   { step := fun w => (w.1 + 1, w.2)
@@ -216,8 +218,21 @@ def sessionRun (tb : Tables) (pinnedItnum : Bool) (ds : DispSt) : Drv W Nat Stri
     let d0 := d.setMaxiter m
     let cbv := if cb then some (cbOf tb) else none
     -- repaired behaviour (`late = false`); the tree as it is (`late = true`) differs in the counter only
-    let (d1, o) := solveX false (envOf tb) cbv d0
+    let (d1n, on) := solveX false (envOf tb) cbv d0
     let itLate : Int := (solveX true (envOf tb) cbv d0).1.itnum
+    -- does a callback invocation of this call raise?  (first flagged invocation number reachable in the call)
+    let firstRaise : Option Nat := if cb then
+        (List.range m.toNat).find? (fun j => tb.raises.getD (d.world.2 + j) false) else none
+    let raised : Option (Drv W Nat String) := match firstRaise with
+      | none => none
+      | some j =>
+        let c := (cbOf tb).toCallback
+        match solveRaise (envOf tb) c c.run c.ticks d0 j with
+        | (dr, none) => some dr
+        | _ => none   -- the call ended earlier (NaN stop): the ordinary path describes it
+    let (d1, o, oname) := match raised with
+      | some dr => (dr, Outcome.nan, "cbraise")
+      | none => (d1n, on, outcomeStr on)
     -- the pinned tree's counter defect, reported separately (classification of a known finding only)
     let itPinned : Int := if o == .ok && m ≤ 0 then solvePinnedItnum m d1.itnum else d1.itnum
     let _ := pinnedItnum
@@ -227,7 +242,7 @@ def sessionRun (tb : Tables) (pinnedItnum : Bool) (ds : DispSt) : Drv W Nat Stri
     let s2 := if o == .ok then dispEnd ds.opts s1 else s1
     let printed := s2.out.drop ds.st.out.length
     let ds := { ds with st := s2 }
-    let out := jObj [("outcome", jS (outcomeStr o)), ("itnum", jI d1.itnum), ("itnum_pinned", jI itPinned),
+    let out := jObj [("outcome", jS oname), ("itnum", jI d1.itnum), ("itnum_pinned", jI itPinned),
       ("printed", jArr (printed.map jEv)),
       ("itnum_late", jI itLate), ("maxiter", jI d1.maxiter),
       ("clock", jN d1.clock),
@@ -300,7 +315,10 @@ def handler : Handler := fun op j =>
               match ← getList? v with
               | [a, b] => some (← getOI a, ← getOI b)
               | _ => none))
-      let tb : Tables := ⟨st.toArray, ct.toArray, vs.toArray, ctl.toArray⟩
+      let raises ← match field? j "raises" with
+        | none => some []
+        | some r => getListOf? getBool? r
+      let tb : Tables := ⟨st.toArray, ct.toArray, vs.toArray, ctl.toArray, raises.toArray⟩
       let o : Scico.Driver.Options := { iter0 := ← fInt? j "iter0", maxiter := 100, nanstop := ← fBool? j "nanstop" }
       let d : Drv W Nat String := Drv.init (0, 0) o "main" "all" (← fNat? j "clock")
       let dopts : DisplayOpts ← match field? j "disp" with
